@@ -1712,10 +1712,8 @@ impl<'a> Parser<'a> {
         // Parameters (parse_function_params handles ( and ) itself)
         self.parse_function_params()?;
 
-        // Optional return type
-        if self.match_token(&TokenKind::Colon) {
-            self.parse_type_annotation()?;
-        }
+        // Optional return type (may be a type predicate: `x is T`, `asserts x`)
+        self.parse_optional_return_type()?;
 
         self.expect_semicolon()?;
         Ok(())
